@@ -577,6 +577,13 @@ def rule_r3(ctx) -> List[R.Inst]:
     colwise = _columnwise(fn, a)
     if colwise is not None:
         return _r3_columnwise(ctx, fn, file, rets[-1], colwise) + _r3_columns(M, rid)
+    pi = _project_insert(fn, a)
+    if pi is not None:
+        # the declared columns other than the multiplier projected out of the tempo frame, the multiplier inserted at its declared place
+        frame, formula, decl, ins = pi
+        fake_it = decl
+        insts3 = _r3_columnwise(ctx, fn, file, rets[-1], ("_", formula, frame, fake_it))
+        return insts3 + _r3_columns(M, rid)
     calls = [c for (nm_, c) in all_ops if isinstance(c, ast.Call)]
     extra_ops = [nm_ for (nm_, c) in all_ops if nm_ == "index" or (isinstance(c, ast.Call) and nm_ not in ("copy", "assign"))]
     if root is None or not unparse(root).endswith(".bpms.df"):
@@ -661,6 +668,39 @@ def _columnwise(fn, a):
     if not (isinstance(other, ast.Subscript) and isinstance(other.slice, ast.Name) and other.slice.id == v):
         return None
     return v, body, other.value, dc.generators[0].iter
+
+
+def _project_insert(fn, a):
+    """X = F[DECL.drop("multiplier")](.copy()); X.insert(DECL.get_loc("multiplier"), "multiplier", <formula>); … SvList(X)
+    -> (frame expression F, formula, DECL expression, the insert call)"""
+    if not isinstance(a, ast.Name):
+        return None
+    ds = [x.value for x in walk_no_nested(fn.node) if isinstance(x, ast.Assign) and len(x.targets) == 1 and isinstance(x.targets[0], ast.Name) and x.targets[0].id == a.id]
+    if len(ds) != 1:
+        return None
+    v = ds[0]
+    while isinstance(v, ast.Call) and isinstance(v.func, ast.Attribute) and v.func.attr == "copy" and not v.args:
+        v = v.func.value
+    if isinstance(v, ast.Subscript) and isinstance(v.value, ast.Attribute) and v.value.attr == "loc" and isinstance(v.slice, ast.Tuple) and len(v.slice.elts) == 2 and \
+            isinstance(v.slice.elts[0], ast.Slice) and v.slice.elts[0].lower is None and v.slice.elts[0].upper is None:
+        frame, sel = v.value.value, v.slice.elts[1]
+    elif isinstance(v, ast.Subscript):
+        frame, sel = v.value, v.slice
+    else:
+        return None
+    if not (isinstance(sel, ast.Call) and call_name(sel) in ("drop", "difference") and len(sel.args) == 1 and
+            unparse(sel.args[0]).strip("[]'\"") == "multiplier" and isinstance(sel.func, ast.Attribute)):
+        return None
+    decl = sel.func.value
+    ins = [c for c in walk_no_nested(fn.node) if isinstance(c, ast.Call) and call_name(c) == "insert" and isinstance(c.func, ast.Attribute) and
+           unparse(c.func.value) == a.id and len(c.args) == 3 and isinstance(c.args[1], ast.Constant) and c.args[1].value == "multiplier"]
+    if len(ins) != 1:
+        return None
+    pos = ins[0].args[0]
+    if not (isinstance(pos, ast.Call) and call_name(pos) == "get_loc" and unparse(pos.func.value) == unparse(decl) and
+            len(pos.args) == 1 and isinstance(pos.args[0], ast.Constant) and pos.args[0].value == "multiplier"):
+        return None
+    return frame, ins[0].args[2], decl, ins[0]
 
 
 def _r3_columnwise(ctx, fn, file, ret, cw) -> List[R.Inst]:
